@@ -37,6 +37,18 @@ def load_mutants(pid=None):
                     m = json.load(f)
                 ms.append(dict(id='seeded/' + d, property=m.get('property'), expect=m.get('caught_by', []),
                                patch=patch, desc=m.get('summary', '')))
+    nd = os.path.join(VERIF, 'neutral')
+    if os.path.isdir(nd):
+        # behaviour-preserving refactorings written by independent sub-agents: every check must stay quiet on them
+        for d in sorted(os.listdir(nd)):
+            patch = os.path.join(nd, d, 'patch.diff')
+            if os.path.exists(patch):
+                meta = {}
+                if os.path.exists(os.path.join(nd, d, 'meta.json')):
+                    with open(os.path.join(nd, d, 'meta.json')) as f:
+                        meta = json.load(f)
+                ms.append(dict(id='neutral/ext-' + d, property=implemented(), expect=[], neutral=True, patch=patch,
+                               desc=meta.get('summary', '')))
     if pid:
         ms = [m for m in ms if pid in as_list(m.get('check', m.get('property')))]
     return ms
